@@ -725,47 +725,42 @@ def check_line_numbers(chk, ix):
 
 
 def check_cell_splitter(chk, ix):
+    """P5: a table row is split at the pipes that are not preceded by a backslash, without its outer pipes; each cell
+    is stripped and only the escaped pipe is unescaped.  Parser.action_table constant-folded on concrete rows."""
     chk.rule("P5", WHAT["P5"])
-    f = ix.func("behave.parser:Parser.action_table")
-    import re._parser as sre
-    splits = [n for n in ast.walk(f.node) if isinstance(n, ast.Call) and unparse(n.func) == "re.split"]
-    chk.instance("P5")
-    if len(splits) != 1 or not isinstance(splits[0].args[0], ast.Constant):
-        raise AnalysisError("action_table: cell split call not recognised (re.split with a literal pattern expected)")
-    pat = splits[0].args[0].value
-    try:
-        tree = list(sre.parse(pat))
-    except Exception as e:      # noqa
-        raise AnalysisError("cell split pattern does not parse: %s" % e)
-    ok = False
-    if len(tree) == 2:
-        (op1, av1), (op2, av2) = tree
-        if str(op1) == "ASSERT_NOT" and av1[0] == -1 and [str(o) for o, _ in av1[1]] == ["LITERAL"] and av1[1][0][1] == ord("\\") \
-                and str(op2) == "LITERAL" and av2 == ord("|"):
-            ok = True
-    if ok:
-        chk.ok("P5", {"pattern": pat, "shape": "negative look-behind on backslash, literal pipe"}, nontrivial_key="split")
-    else:
-        chk.fail(Finding("P5", f.fullname, "split pattern %r" % pat,
-                         "table cells are split with %r: not 'a pipe that is not preceded by a backslash'" % pat,
-                         file=f.file, line=splits[0].lineno, stmt=norm_stmt(splits[0])))
-    # the argument is the row without its outer pipes
-    chk.instance("P5")
-    arg = unparse(splits[0].args[1]) if len(splits[0].args) > 1 else ""
-    if arg.endswith("[1:-1]"):
-        chk.ok("P5", {"split_argument": arg}, nontrivial_key="outer")
-    else:
-        chk.fail(Finding("P5", f.fullname, "split argument %s" % arg, "the outer pipes are not removed with [1:-1] before splitting (%s)" % arg,
-                         file=f.file, line=splits[0].lineno))
-    reps = [n for n in ast.walk(f.node) if isinstance(n, ast.Call) and isinstance(n.func, ast.Attribute) and n.func.attr == "replace"
-            and len(n.args) == 2 and all(isinstance(a, ast.Constant) for a in n.args)]
-    chk.instance("P5")
-    if any(r.args[0].value == "\\|" and r.args[1].value == "|" for r in reps) and len(reps) == 1:
-        chk.ok("P5", {"unescape": "'\\\\|' -> '|' only"}, nontrivial_key="unescape")
-    else:
-        chk.fail(Finding("P5", f.fullname, "unescape %s" % [(r.args[0].value, r.args[1].value) for r in reps],
-                         "cell unescaping is not exactly the replacement of an escaped pipe by a pipe",
-                         file=f.file, line=f.lineno))
+    pc = ix.cls("behave.parser:Parser")
+    f = pc.lookup("action_table")
+    import re as _re
+    rows = ["| a | b |", "|a|b|", "| a\\|b | c |", "|  spaced   out  |x|", "| | |", "|a||b|", "| \\| |", "| a\\\\ | b |", "| x\\|y\\|z |", "| caf\u00e9 | \u6771\u4eac |",
+            "| a |", "| tab\there | y |", "   | indented | row |   "]
+
+    def oracle(line):
+        line = line.strip()
+        return [c.replace("\\|", "|").strip() for c in _re.split(r"(?<!\\)\|", line[1:-1])]
+    for line in rows:
+        got = []
+        stubs = {"Table": lambda i_, s_, a, k, n: (got.append(a[0]), [(s_, "val", "TABLE")])[1],
+                 "model.Table": lambda i_, s_, a, k, n: (got.append(a[0]), [(s_, "val", "TABLE")])[1]}
+        it = Interp(ix, stubs=stubs, name="action_table")
+        it.fold_regex = True
+        it.int_sat = 1000
+        it.list_cap = 100
+        st = State()
+        st.frames = []
+        me = st.alloc(HObj(pc, {"table": None, "examples": None, "line": 3, "filename": "x.feature", "state": EnumVal("State", "TABLE")}, label="parser"))
+        outs = it.call_function(st, f, [line], {}, None, self_val=me)
+        chk.absorb(it)
+        chk.instance("P5")
+        if len(outs) != 1 or outs[0][1] != "val" or len(got) != 1:
+            raise AnalysisError("action_table not foldable on %r: %r" % (line, [(k, v) for _, k, v in outs][:2]))
+        v = got[0]
+        cells = list(outs[0][0].obj(v).items) if isinstance(v, Ref) else list(v)
+        want = oracle(line)
+        if cells == want:
+            chk.ok("P5", {"row": line, "cells": cells}, nontrivial_key=line)
+        else:
+            chk.fail(Finding("P5", f.fullname, "%r -> %r" % (line, cells), "the table row %r is split into %r; splitting at unescaped pipes, stripping and "
+                             "unescaping the pipe gives %r" % (line, cells, want), file=f.file, line=f.lineno, stmt="def action_table"))
 
 
 def check_termination(chk, ix):
